@@ -241,14 +241,19 @@ CLAIMED = {
         technique="Lean 4 round-trip proof against a reference relay + differential correspondence with scripted relay",
         design="5/C16"),
     "C12": dict(
-        text="PARTIAL (weakest fit). Lean 4 theorems cover only what a model can carry: after remove_stream no container of a "
-             "well-formed agent mentions the stream and other streams' resources are untouched, the keepalive timer does not outlive "
-             "the last stream, the keepalive and consent timers are re-armed for the whole remaining time (never longer than their "
-             "period, at least 1 ms when 1 ms remains, less than 1 ms left after a consent re-arm) — the no-spin arithmetic. Memory "
-             "safety, use-after-free, assertions and leaks of the C code CANNOT be expressed in the model: they are observed by running "
-             "generated API programs (<= 60 calls over the public API with valid and stale ids, main-loop time and peer traffic "
-             "interleaved, optional TURN server / consent freshness / reliable mode) on real agents under ASan+UBSan+LSan, inspecting the "
-             "agent's private containers after every remove_stream, counting sockets before/after and main-loop dispatches per idle second.",
+        text="PARTIAL (weakest fit). Lean 4 theorems cover what a model can carry: a lifecycle state machine (add/remove stream, "
+             "gather, TURN allocation, forget_relays, asynchronous de-allocation completions, check lists, triggered queue, keepalive) "
+             "with the invariant WF proved for EVERY operation sequence (C12_reachable_wf): each resource is owned by a stream object "
+             "that still exists (live, or parked on pruning_streams while its refreshes are disposed), no parked stream is stranded, "
+             "the keepalive timer is armed only while a stream is left; after remove_stream no live container mentions the id (stale "
+             "ids included), other streams' resources are untouched, the last freed refresh closes the parked stream; the keepalive and "
+             "consent timers are re-armed for the whole remaining time (never longer than their period, at least 1 ms when 1 ms "
+             "remains) — the no-spin arithmetic. Tie: snapshots of the real agent's private containers around every add_stream / "
+             "remove_stream are pushed through the model's transition (post-states must be equal) and the executable invariant is "
+             "evaluated on every snapshot. Memory safety, use-after-free, assertions and leaks of the C code CANNOT be expressed in "
+             "the model: they are observed by running generated API programs (<= 60 calls over the public API with valid and stale "
+             "ids, main-loop time and peer traffic interleaved, optional TURN server / consent freshness / reliable mode) on real "
+             "agents under ASan+UBSan+LSan, counting sockets before/after and main-loop dispatches per idle second.",
         note="Trusted: Lean kernel, Lifecycle bookkeeping model (refresh pruning is asynchronous in the code and modelled so), "
              "sim_drv harness, sanitizers; single-threaded use only.",
         technique="Lean 4 proof of bookkeeping/timer kernels + sanitizer-instrumented API-program exploration",
@@ -257,8 +262,7 @@ CLAIMED = {
 
 NA_REASON = "not yet decided by the framework at this commit (model/theorems under construction); not claimed"
 
-PENDING = {"C12": "check exists (checks/C12.py) but is being triaged: it currently reports crashes/hangs on the unchanged tree that "
-                  "have not yet been classified as genuine defects or harness artefacts; not claimed until that is settled"}
+PENDING = {}
 
 
 def main():
